@@ -34,7 +34,7 @@ def sleeper_model(ctx, repo, rule="R3"):
     # ---- R3 sleeper ----------------------------------------------------------------------------
     # the sleeper on a model (witness scenarios): module globals are the analysis's, futures are stand-ins, and
     # asyncio.wait is intercepted - what is waited on, with which timeout, and what the shared future is afterwards
-    def sleeper(initial, delay):
+    def sleeper(initial, delay, cancel=False):
         it = Interp(repo)
         made, waited, cancels = [], [], []
 
@@ -72,8 +72,12 @@ def sleeper_model(ctx, repo, rule="R3"):
                         waited.append((rest, min([t2.attrs["inner"].attrs["delay"] for t2 in timers]) if len(timers) > 1 else d_))
                     else:
                         waited.append((aws, f"<{rw} over future and timer, timeout {to}>"))
+                    if cancel:
+                        raise PyRaise("asyncio.CancelledError", node)
                     return (set(), set())
                 waited.append((aws, to))
+                if cancel:
+                    raise PyRaise("asyncio.CancelledError", node)   # the sleeping task is cancelled while it waits
                 return (set(), set())
             if nm == "asyncio.shield":
                 return Obj(None, {"inner": args[0] if args else None}, name="shield")
@@ -99,11 +103,24 @@ def sleeper_model(ctx, repo, rule="R3"):
         try:
             it.call(cs, None, [delay])
         except PyRaise as e:
+            if cancel:
+                return {"raises": e.what, "initial": init, "made": made, "waited": waited, "shared": it.globals.get("ConfigChange"), "cancels": cancels}
             return {"raises": e.what}
         except Undecided as e:
             raise AnalysisError(f"config_sleep: {e}")
         return {"initial": init, "made": made, "waited": waited, "shared": it.globals.get("ConfigChange"), "cancels": cancels}
 
+    # a sleeper that is cancelled while it waits (its task is cancelled by a reset) leaves the shared future as the
+    # other sleepers know it: still there, still pending - and the cancellation goes on
+    for initial in ("none", "pending"):
+        r = sleeper(initial, 7, cancel=True)
+        waited_on = r.get("waited", [[None]])[0][0] if r.get("waited") else None
+        target = waited_on[0] if waited_on else None
+        ok = "CancelledError" in str(r.get("raises")) and r.get("shared") is not None and r.get("shared") is target and not r["shared"].attrs["_done"]
+        ctx.ob(rule, f"config_sleep::{initial}::cancelled-while-waiting", ok,
+               f"config_sleep(7) cancelled during its wait (shared future {initial} before): outcome {r.get('raises')!r}, the shared future afterwards is "
+               f"{'the one waited on' if r.get('shared') is target and target is not None else r.get('shared')!r} - expected the CancelledError to propagate and the future the other sleepers are parked on to stay in place",
+               cs.loc)
     for initial in ("none", "done", "pending"):
         for delay in (7, 0, 0.0, 2.5):
             r = sleeper(initial, delay)
@@ -153,7 +170,8 @@ def check(ctx):
             val = repo.try_fold(v, m)
             ctx.ob("R1", f"{c.short}.{k}::numeric", isinstance(val, (int, float)) and val > 0, f"{c.short}.{k} = {val!r} is not a positive number", c.loc)
     # methods on the base class would be filtered by callable(); properties would not: none may exist
-    ctx.ob("R1", "_GeckoConfig::only-data-members", not base.methods, f"_GeckoConfig has methods {sorted(base.methods)}", base.loc)
+    _props = sorted(k for k, f_ in base.methods.items() if f_.is_property)
+    ctx.ob("R1", "_GeckoConfig::only-data-members", not _props, f"_GeckoConfig has properties {_props}: not callable, so they would be copied as settings", base.loc)
 
     scm = m.functions.get("set_config_mode")
     cs = m.functions.get("config_sleep")
@@ -223,6 +241,8 @@ def check(ctx):
     # sleepers are blocked on must never be dropped or rebound (they would miss the next wake-up)
     n_w = 0
     for fi in list(m.functions.values()):
+        if fi.name == "config_sleep":
+            continue   # decided by the sleeper model above: a pending future is kept, a missing / resolved one replaced - in every scenario
         gfi = cfg_of(fi)
         for n in gfi.stmt_nodes():
             if isinstance(n.ast, (ast.Assign, ast.AnnAssign, ast.AugAssign)):
@@ -241,7 +261,6 @@ def check(ctx):
         for n in ast.walk(other.tree):
             if isinstance(n, ast.Attribute) and n.attr == "ConfigChange" and isinstance(n.ctx, ast.Store):
                 ctx.ob("R3", f"{other.rel}::writes-ConfigChange", False, f"{other.rel} writes config.ConfigChange", other.rel)
-    ctx.floor("R3", "writes of the shared future in config.py functions", n_w, 1)
 
     # ---- R4 who sleeps how ------------------------------------------------------------------------
     n_cs = 0
